@@ -146,6 +146,20 @@ func (g *G) num(v int, c *svcCtx) *Y {
 
 func (g *G) kvMapOrList(label string, c *svcCtx, keys []string) *Y {
 	n := 1 + g.n(label+"-n", 3)
+	if g.chance(label+"-large", 1, 10) {
+		// a large mapping: more than a dozen entries
+		y := Map()
+		m := 13 + g.n(label+"-large-n", 10)
+		for i := 0; i < m; i++ {
+			k := fmt.Sprintf("%s_%02d", keys[i%len(keys)], (i*5)%m)
+			if i%5 == 0 {
+				y.Set(k, Null())
+			} else {
+				y.Set(k, Str(fmt.Sprintf("v%d", i)))
+			}
+		}
+		return y
+	}
 	if g.chance(label+"-list", 1, 2) {
 		y := Seq()
 		off := g.n(label+"-koff", len(keys))
@@ -162,10 +176,10 @@ func (g *G) kvMapOrList(label string, c *svcCtx, keys []string) *Y {
 	y := Map()
 	for i := 0; i < n; i++ {
 		k := g.pick(label+"-k", keys)
-		switch g.n(label+"-vk", 5) {
+		switch g.n(label+"-vk", 6) {
 		case 0:
 			y.Set(k, Int(g.n(label+"-iv", 100)))
-		case 1:
+		case 1, 2:
 			y.Set(k, Null())
 		default:
 			y.Set(k, g.interp(g.word(label+"-v"), c))
@@ -461,6 +475,19 @@ func (g *G) attr(a string, c *svcCtx) *Y {
 		}
 		return Map().Set("net.core.somaxconn", Int(1024)).Set("net.ipv4.ip_forward", Str("1"))
 	case "extra_hosts":
+		if g.chance("eh-large", 1, 8) {
+			y := Map()
+			n := 13 + g.n("eh-large-n", 8)
+			for i := 0; i < n; i++ {
+				h := fmt.Sprintf("host%02d", (i*7)%n)
+				if i%4 == 0 {
+					y.Set(h, StrSeq(fmt.Sprintf("10.1.%d.2", i), fmt.Sprintf("10.1.%d.1", i), fmt.Sprintf("fd00::%d", i)))
+				} else {
+					y.Set(h, Str(fmt.Sprintf("10.0.0.%d", i)))
+				}
+			}
+			return y
+		}
 		if g.chance("eh-list", 1, 2) {
 			// a drawn non-empty subset: two files then overlap partially, which is where merging has to think
 			pool := []string{"somehost:162.242.195.82", "otherhost=50.31.209.229", "v6host:::1", "fourth=10.0.0.4"}
@@ -665,7 +692,7 @@ func (g *G) envFileContent(label string, vars []string) string {
 	n := 1 + g.n(label+"-lines", 4)
 	for i := 0; i < n; i++ {
 		k := g.pick(label+"-k", envKeys)
-		switch g.n(label+"-form", 8) {
+		switch g.n(label+"-form", 10) {
 		case 0:
 			fmt.Fprintf(&b, "%s=%s\n", k, g.word(label+"-v"))
 		case 1:
@@ -678,6 +705,10 @@ func (g *G) envFileContent(label string, vars []string) string {
 			fmt.Fprintf(&b, "%s=\"multi\nline\"\n", k)
 		case 7:
 			fmt.Fprintf(&b, "%s=\"ref-${%s:-unset}\"\n", k, g.pick(label+"-ref", envKeys))
+		case 8:
+			fmt.Fprintf(&b, "%s=\"esc \\\" quote \\\\ back \\n nl\"\n", k)
+		case 9:
+			fmt.Fprintf(&b, "%s='single quoted' # comment\n%s=\"ends with an escaped backslash \\\\\"\n", k, g.pick(label+"-k2", envKeys))
 		case 5:
 			if len(vars) > 0 && g.chance(label+"-ref-project-var", 1, 2) {
 				fmt.Fprintf(&b, "%s=pre-${%s}-post # inline\n", k, vars[0])
@@ -831,6 +862,11 @@ func GenLayoutForced(r *zsimrt.Run, forced map[string]bool) *Layout {
 		}
 	}
 	L.Env["SECRET_ENV"] = "s3cr3t-canary"
+	for _, k := range envKeys {
+		if g.chance("projenv:"+k, 1, 2) {
+			L.Env[k] = "from-project-env-" + strings.ToLower(k)
+		}
+	}
 	c := &svcCtx{dir: root, vars: vars}
 	// env / label files
 	if g.on("env_file") {
